@@ -1554,7 +1554,7 @@ write_gvar_data(Relocation *cur, Initializer *init, Type *ty, char *buf, int off
         char *loc = buf + offset + mem->offset;
         uint64_t oldval = read_buf(loc, mem->ty->size);
         uint64_t newval = eval(new_cast(expr, mem->ty));
-        uint64_t mask = (1L << mem->bit_width) - 1;
+        uint64_t mask = (mem->bit_width == 64) ? -1L : (1L << mem->bit_width) - 1;
         uint64_t combined = oldval | ((newval & mask) << mem->bit_offset);
         write_buf(loc, combined, mem->ty->size);
       } else {
